@@ -284,6 +284,12 @@ fn short_hex(b: &[u8]) -> String {
     if b.len() <= 48 { hex(b) } else { format!("{}… ({} bytes)", hex(&b[..48]), b.len()) }
 }
 
+/// Debug text of a value, shortened for the one-line `what` (the witness has it in full).
+fn brief<T: Debug>(v: &T) -> String {
+    let s = format!("{v:?}");
+    if s.chars().count() <= 240 { s } else { format!("{}… ({} chars)", s.chars().take(240).collect::<String>(), s.chars().count()) }
+}
+
 fn first_diff(a: &[u8], b: &[u8]) -> usize {
     a.iter().zip(b.iter()).position(|(x, y)| x != y).unwrap_or(a.len().min(b.len()))
 }
@@ -364,7 +370,7 @@ where
                 if seen.as_ref().ok() != Some(&expect) {
                     rep.violation(
                         &format!("text-encode/{name}/json"),
-                        &format!("{name}: the independent NBT reader decodes the crate's bytes {} to {seen:?}, expected {expect:?}", short_hex(&out)),
+                        &format!("{name}: the independent NBT reader decodes the crate's bytes {} to {}, expected {}", short_hex(&out), brief(&seen), brief(&expect)),
                         json!({"case": case, "clause": "independent decode of the crate's bytes == value (semantic JSON comparison)", "expected": format!("{expect:?}"), "observed": format!("{seen:?}"), "observed_body": hex(&out)}),
                     );
                 }
@@ -377,7 +383,7 @@ where
                         if !judge(&d) || pos != out.len() {
                             rep.violation(
                                 &sig,
-                                &format!("{name}: reading back the crate's own bytes gives {d:?} at position {pos} of {}", out.len()),
+                                &format!("{name}: reading back the crate's own bytes gives {} at position {pos} of {}", brief(&d), out.len()),
                                 json!({"case": case, "clause": "read(write(v)) == v and all bytes consumed", "expected": format!("{val:?}"), "observed": format!("{d:?}"), "position": pos, "length": out.len(), "body": hex(&out)}),
                             );
                         }
@@ -451,7 +457,7 @@ where
             if !judge(&d) {
                 rep.violation(
                     &value_sig,
-                    &format!("{name}: the crate decodes the protocol bytes {} to {d:?}, the encoded value was {val:?}", short_hex(&ref_body)),
+                    &format!("{name}: the crate decodes the protocol bytes {} to {}, the encoded value was {}", short_hex(&ref_body), brief(&d), brief(&val)),
                     json!({"case": case, "clause": "decode(reference bytes) == value", "expected": format!("{val:?}"), "expected_reference": format!("{expect:?}"), "observed": format!("{d:?}"), "observed_as_reference": format!("{:?}", to_ref(&d)), "body": hex(&ref_body)}),
                 );
             }
